@@ -168,6 +168,13 @@ def run_history(ctx, e, rng, nsteps, on_step=None, conc=False, churn=False, hsm=
         for nid in allow_init:
             if nid in case.usable_now(host):
                 case.marker_state[nid] = "ok"
+        if desc[0] == "iterate" and dharness.verif_persistent(e):
+            # after a pass, the daemon watches (auto-import) only roots of nodes that are its own and active
+            for nd, root, handler in case.watched(host):
+                if nd is None or nd.host != host or not nd.active:
+                    p7.append((f"daemon on {host} still watches the root of node {handler.node.name} for auto-import although the node is "
+                               f"{'gone' if nd is None else 'on host ' + str(nd.host) if nd.host != host else 'not active'} "
+                               f"(new files there would be imported)", list(log[-6:])))
         for p in case.invariants():
             p8.append((p, list(log[-6:])))
         # "a completed request implies a copy was recorded in its destination group": judged at the step that completes it
@@ -293,7 +300,19 @@ def run_history(ctx, e, rng, nsteps, on_step=None, conc=False, churn=False, hsm=
         for si in range(nsteps):
             r = rng.random()
             host = rng.choice(case.hosts)
-            if r < 0.03:
+            if r < 0.06 and dharness.verif_persistent(e) and case.watched(host):
+                # a new file appears under a watched root: the (synchronous) observer delivers the event to the daemon's handler
+                from watchdog.events import FileCreatedEvent
+                nd, root, handler = rng.choice(case.watched(host))
+                k_ = len(log)
+                pth = os.path.join(root, "acq", f"arrived{k_}.dat")
+                os.makedirs(os.path.dirname(pth), exist_ok=True)
+                with open(pth, "wb") as fh:
+                    fh.write(b"newly arrived %d" % k_)
+                e.set_host(host)
+                handler.on_created(FileCreatedEvent(pth))
+                log.append(f"new file acq/arrived{k_}.dat under the watched root of {handler.node.name}: event delivered to the daemon on {host}")
+            elif r < 0.03:
                 case.restart(host)
                 log.append(f"restart of the daemon on {host}")
             elif r < 0.28:
